@@ -13,6 +13,9 @@
 //   compiles/parses the SHARED objects afresh, so that the threads meet them cold: anything built lazily
 //   inside a shared object is built under contention, where ThreadSanitizer can see it.
 //   run <label> <threads> <rounds> <seed> <job>...     job = <sheetid>:<srcid>:<kind>
+//        a job list may contain the token +cfg: every transformer (the reference one too) then gets a PRIVATE configuration --
+//        its own extension function urn:c07ext:tag() and stylesheet parameter `par` (both return the owner's tag), its own
+//        problem listener, trace listener, entity resolver and error handler (counts are appended to the output)
 //        kind b = shared stylesheet + shared source
 //             s = shared stylesheet, source parsed by every thread itself
 //             d = shared source, stylesheet compiled by every thread itself
@@ -41,7 +44,15 @@
 #include <xercesc/parsers/XercesDOMParser.hpp>
 #include <xercesc/util/PlatformUtils.hpp>
 
+#include <xercesc/sax/EntityResolver.hpp>
+#include <xercesc/sax/ErrorHandler.hpp>
+#include <xercesc/sax/SAXParseException.hpp>
+
 #include <xalanc/PlatformSupport/URISupport.hpp>
+#include <xalanc/XPath/Function.hpp>
+#include <xalanc/XPath/XObjectFactory.hpp>
+#include <xalanc/XSLT/ProblemListenerDefault.hpp>
+#include <xalanc/XSLT/TraceListener.hpp>
 #include <xalanc/XalanTransformer/XalanTransformer.hpp>
 #include <xalanc/XalanTransformer/XalanCompiledStylesheet.hpp>
 #include <xalanc/XalanTransformer/XalanParsedSource.hpp>
@@ -76,6 +87,100 @@ private:
     XalanDocument* m_doc;
     XalanDOMString m_uri;
 };
+
+// ---- everything the public API lets a thread configure privately on its own XalanTransformer ("+cfg" runs) ----
+// The extension function and the stylesheet parameter carry the owner's tag, so cross-talk between transformers
+// shows up in the output; the listeners count what they are told, and the counts are appended to the output.
+static const char* const EXT_NS = "urn:c07ext";
+static const char* const GLOB_NS = "urn:c07glob";
+
+class TagFunction : public Function
+{
+public:
+    explicit TagFunction(const std::string& tag) : m_tag(tag) {}
+    virtual XObjectPtr
+    execute(XPathExecutionContext& executionContext, XalanNode*, const XObjectArgVectorType&, const Locator*) const
+    {
+        return executionContext.getXObjectFactory().createString(XalanDOMString(m_tag.c_str()));
+    }
+    using Function::execute;
+    virtual TagFunction* clone(MemoryManager& theManager) const { return XalanCopyConstruct(theManager, *this); }
+protected:
+    const XalanDOMString& getError(XalanDOMString& theResult) const { theResult.assign("tag() failed"); return theResult; }
+private:
+    std::string m_tag;
+};
+
+class CountingProblemListener : public ProblemListenerDefault
+{
+public:
+    CountingProblemListener() : ProblemListenerDefault(XalanMemMgrs::getDefaultXercesMemMgr()), count(0), hash(1469598103934665603ull) {}
+    void note(const XalanDOMString& msg)
+    {
+        ++count;
+        for (XalanDOMString::size_type i = 0; i < msg.length(); ++i) { hash ^= msg[i]; hash *= 1099511628211ull; }
+    }
+    virtual void problem(eSource, eClassification, const XalanDOMString& msg, const Locator*, const XalanNode*) { note(msg); }
+    virtual void problem(eSource, eClassification, const XalanDOMString& msg, const XalanNode*) { note(msg); }
+    virtual void problem(eSource, eClassification, const XalanNode*, const ElemTemplateElement*, const XalanDOMString& msg,
+                         const XalanDOMChar*, XalanFileLoc, XalanFileLoc) { note(msg); }
+    unsigned long count; uint64_t hash;
+};
+
+class CountingTraceListener : public TraceListener
+{
+public:
+    CountingTraceListener() : t(0), s(0), g(0) {}
+    virtual void trace(const TracerEvent&) { ++t; }
+    virtual void selected(const SelectionEvent&) { ++s; }
+    virtual void generated(const GenerateEvent&) { ++g; }
+    unsigned long t, s, g;
+};
+
+class CountingHandlers : public xercesc::EntityResolver, public xercesc::ErrorHandler
+{
+public:
+    CountingHandlers() : resolved(0), problems(0) {}
+    virtual xercesc::InputSource* resolveEntity(const XMLCh* const, const XMLCh* const) { ++resolved; return 0; }
+    virtual void warning(const xercesc::SAXParseException&) { ++problems; }
+    virtual void error(const xercesc::SAXParseException&) { ++problems; }
+    virtual void fatalError(const xercesc::SAXParseException& e) { ++problems; throw xercesc::SAXParseException(e); }
+    virtual void resetErrors() {}
+    unsigned long resolved, problems;
+};
+
+struct PrivateConfig
+{
+    std::string tag;
+    TagFunction fn;
+    CountingProblemListener pl;
+    CountingTraceListener tl;
+    CountingHandlers h;
+    explicit PrivateConfig(const std::string& t) : tag(t), fn(t) {}
+    void apply(XalanTransformer& x)
+    {
+        x.installExternalFunction(XalanDOMString(EXT_NS), XalanDOMString("tag"), fn);
+        x.setStylesheetParam(XalanDOMString("par"), XalanDOMString(("'" + tag + "'").c_str()));
+        x.setProblemListener(&pl);
+        x.addTraceListener(&tl);
+        x.setEntityResolver(&h);
+        x.setErrorHandler(&h);
+    }
+    // trailer appended to the output of one transformation; the counters are reset
+    std::string trailer()
+    {
+        std::ostringstream o;
+        o << "\n#CFG pl=" << pl.count << ":" << std::hex << pl.hash << std::dec << " tl=" << tl.t << "," << tl.s << "," << tl.g
+          << " h=" << h.resolved << "," << h.problems;
+        pl.count = 0; pl.hash = 1469598103934665603ull; tl.t = tl.s = tl.g = 0; h.resolved = h.problems = 0;
+        return o.str();
+    }
+};
+
+static void replaceAll(std::string& s, const std::string& from, const std::string& to)
+{
+    for (size_t p = 0; (p = s.find(from, p)) != std::string::npos; p += to.size()) s.replace(p, from.size(), to);
+}
 
 struct SourceSpec { std::string mode, path; };
 struct SheetSpec { std::string path; };
@@ -140,7 +245,7 @@ static bool makeSource(XalanTransformer& owner, const SourceSpec& spec, Source& 
     return true;
 }
 
-static Result transformOnce(XalanTransformer& t, const Sheet& sh, const Source& so, char kind)
+static Result transformOnce(XalanTransformer& t, const Sheet& sh, const Source& so, char kind, PrivateConfig* cfg = nullptr)
 {
     std::ostringstream os;
     XSLTResultTarget target(os);
@@ -153,7 +258,20 @@ static Result transformOnce(XalanTransformer& t, const Sheet& sh, const Source& 
         rc = t.transform(*so.parsed, XSLTInputSource(sh.path.c_str()), target);
     Result r;
     r.out = os.str();
+    if (cfg && rc != 0)
+    {
+        // a transformation that ends in an error leaves what the output buffer had flushed: the cut can fall inside a tag
+        for (size_t L = cfg->tag.size() - 1; L >= 1; --L)
+            if (r.out.size() >= L && r.out.compare(r.out.size() - L, L, cfg->tag, 0, L) == 0) { r.out.replace(r.out.size() - L, L, "@@TRUNC@@"); break; }
+    }
     if (rc != 0) { r.out += "\n#ERR "; r.out += t.getLastError(); }
+    if (cfg)
+    {
+        r.out += cfg->trailer();
+        // the owner's tag is the only thing that may differ between transformers: normalise it, so that any OTHER tag
+        // (another thread's function or parameter) is a difference from the sequential reference
+        replaceAll(r.out, cfg->tag, "@@TAG@@");
+    }
     r.rc = rc; r.h = fnv(r.out); r.len = r.out.size();
     return r;
 }
@@ -184,6 +302,9 @@ int main(int argc, char** argv)
     xercesc::XMLPlatformUtils::Initialize();
     XalanTransformer::initialize();
     {
+        // a process-wide extension function, installed while the process is still single-threaded (documented use)
+        TagFunction globalFn("glob");
+        XalanTransformer::installExternalFunctionGlobal(XalanDOMString(GLOB_NS), XalanDOMString("name"), globalFn);
         std::map<std::string, SheetSpec> sheetSpecs;
         std::map<std::string, SourceSpec> sourceSpecs;
         std::string line;
@@ -221,8 +342,10 @@ int main(int argc, char** argv)
                 std::vector<Job> jobs;
                 std::string jt;
                 bool bad = false;
+                bool cfgRun = false;
                 while (is >> jt)
                 {
+                    if (jt == "+cfg") { cfgRun = true; continue; }
                     Job j; j.text = jt;
                     size_t a = jt.find(':'), b = jt.rfind(':');
                     if (a == std::string::npos || b == a || b + 1 >= jt.size()) { bad = true; break; }
@@ -238,11 +361,13 @@ int main(int argc, char** argv)
                 for (const Job& j : jobs)
                 {
                     XalanTransformer t; t.setWarningStream(0);
+                    PrivateConfig refCfg("@@T-ref@@");
                     Sheet sh; sh.path = sheetSpecs[j.sheet].path;
                     Source so; std::string err;
                     bool ok = t.compileStylesheet(XSLTInputSource(sh.path.c_str()), sh.compiled) == 0 && makeSource(t, sourceSpecs[j.src], so, err);
                     if (!ok) { Result r; r.rc = -99; r.out = "#setup " + err; r.h = fnv(r.out); r.len = r.out.size(); ref.push_back(r); continue; }
-                    ref.push_back(transformOnce(t, sh, so, j.kind));
+                    if (cfgRun) refCfg.apply(t);     // after compile/parse: the private configuration concerns transformations
+                    ref.push_back(transformOnce(t, sh, so, j.kind, cfgRun ? &refCfg : nullptr));
                 }
 
                 // 2. the shared objects, fresh (cold) for this run
@@ -276,6 +401,11 @@ int main(int argc, char** argv)
                     ths.emplace_back([&, ti]()
                     {
                         XalanTransformer t; t.setWarningStream(0);     // one per thread, as the documentation requires
+                        // all tags have the same length as the reference tag "@@T-ref@@": a transformation that ends in an
+                        // error leaves whatever the 512-byte output buffer had flushed, so lengths must not differ
+                        char tagText[16]; snprintf(tagText, sizeof tagText, "@@T-%03d@@", ti % 1000);
+                        PrivateConfig cfg(tagText);
+                        if (cfgRun) cfg.apply(t);
                         uint64_t x = (uint64_t(seed) + 1) * 0x9E3779B97F4A7C15ull + uint64_t(ti + 1) * 0xBF58476D1CE4E5B9ull;
                         barrier.wait();
                         for (int r = 0; r < rounds; ++r)
@@ -288,7 +418,7 @@ int main(int argc, char** argv)
                                 size_t k = (k0 + size_t(ti) * (1 + size_t(seed % 3)) + size_t(r)) % nj;
                                 if ((x & 7) == 0) std::this_thread::yield();
                                 const Job& j = jobs[k];
-                                Result got = transformOnce(t, sheets[j.sheet], sources[j.src], j.kind);
+                                Result got = transformOnce(t, sheets[j.sheet], sources[j.src], j.kind, cfgRun ? &cfg : nullptr);
                                 ++total[k];
                                 if (got.rc == ref[k].rc && got.out == ref[k].out) ++equal[k];
                                 else
@@ -314,6 +444,7 @@ int main(int argc, char** argv)
                 for (auto& th : ths) th.join();
                 std::ostringstream o;
                 o << "run " << label << " jobs=" << nj;
+                (void) cfgRun;
                 for (size_t k = 0; k < nj; ++k)
                     o << " " << jobs[k].text << "=" << ref[k].rc << ":" << std::hex << ref[k].h << std::dec << ":" << ref[k].len << ":" << equal[k] << "/" << total[k];
                 o << firstDiff;
